@@ -192,6 +192,9 @@ class Interp:
         self.tree = ast.parse(src).body[0]
         if not isinstance(self.tree, (ast.FunctionDef,)):
             raise Unsupported("not a function definition")
+        loops = sorted((n for n in ast.walk(self.tree) if isinstance(n, (ast.For, ast.While))), key=lambda n: (n.lineno, n.col_offset))
+        self.loop_ids = {id(n): i + 1 for i, n in enumerate(loops)}
+        self.seen_obl = set()
 
     # ------------------------------------------------------------ obligations
     def prove(self, name, st, goal, detail=""):
@@ -215,6 +218,11 @@ class Interp:
                 model = str(s.model())[:1500]
             except z3.Z3Exception:
                 model = None
+        n, base = 1, name
+        while name in self.seen_obl:
+            n += 1
+            name = "%s#%d" % (base, n)
+        self.seen_obl.add(name)
         self.res.obligations.append(dict(name=name, status=status, seconds=round(time.time() - t0, 3), backend=backend,
                                          detail=detail, model=model))
         return r == z3.unsat
@@ -374,6 +382,12 @@ class Interp:
             if isinstance(op, ast.NotEq):
                 return a != b
             raise Unsupported("ordering of opaque values")
+        if isinstance(a, (bool, z3.BoolRef)) and isinstance(b, (bool, z3.BoolRef)) and isinstance(op, (ast.Eq, ast.NotEq)):
+            if isinstance(a, bool) and isinstance(b, bool):
+                return (a == b) if isinstance(op, ast.Eq) else (a != b)
+            ta = z3.BoolVal(a) if isinstance(a, bool) else a
+            tb = z3.BoolVal(b) if isinstance(b, bool) else b
+            return (ta == tb) if isinstance(op, ast.Eq) else (ta != tb)
         if isinstance(op, (ast.In, ast.NotIn)):
             hook = self.spec.get("contains")
             if hook is None:
@@ -652,8 +666,7 @@ class Interp:
         return out
 
     def loop(self, s, st, is_for):
-        self.loop_ordinal += 1
-        k = self.loop_ordinal
+        k = self.loop_ids[id(s)]   # ordinal of the loop in source order (stable across paths)
         spec = self.spec["loops"].get(k)
         if spec is None:
             raise Unsupported("loop %d has no invariant in the sidecar" % k)
@@ -683,6 +696,7 @@ class Interp:
         st_i.path.append(i >= 0)
         st_i.path.append(spec.invariant(self, st_i, i))
         exits = []   # states leaving the loop through break
+        dec = self.spec.get("decreases", {}).get(k)
         if is_for:
             st_i.path.append(i < n)
             self.assign(s.target, seq.s[i], st_i)
@@ -693,6 +707,7 @@ class Interp:
                 raise Unsupported("while with a constant test")
             st_i.path.append(c)
             body_entry = [st_i]
+        dec0 = dec(self, st_i) if dec is not None else None   # value of the variant before the body runs
         ends = []
         self.pending_outcomes = getattr(self, "pending_outcomes", [])
         for b in body_entry:
@@ -705,10 +720,8 @@ class Interp:
                     self.pending_outcomes.append((kind, val, fst))
         for j, e in enumerate(ends):
             self.prove("loop%d.invariant-preserved[path %d]" % (k, j), e, spec.invariant(self, e, i + 1))
-            if not is_for:
-                dec = self.spec.get("decreases", {}).get(k)
-                if dec is not None:
-                    self.prove("loop%d.variant-decreases[path %d]" % (k, j), e, z3.And(dec(self, e) < dec(self, st_i), dec(self, st_i) >= 0))
+            if not is_for and dec is not None:
+                self.prove("loop%d.variant-decreases[path %d]" % (k, j), e, z3.And(dec(self, e) < dec0, dec0 >= 0))
         # 3. exit: havoc again, invariant + negated guard
         st_x = st.copy()
         self.havoc(spec, st_x)
